@@ -1090,3 +1090,112 @@ def t6(facts, tier):
                                          f"{f['id']}: the drop guard's `{counter}` is raised before the slot it counts has been written (the read "
                                          f"that produces the value can still fail): on a malformed or truncated element the guard drops an "
                                          f"uninitialised `{elem}`")
+
+
+# ---------------------------------------------------------------------------------------------
+# T7: units of raw pointer arithmetic on the load paths (bytes vs elements)
+
+def _unit_env(f):
+    """variable -> unit: ('elems', T) | ('bytes',) | ('sizeof', T) ; flow-insensitive, from the defining expression"""
+    env = {}
+
+    def elem_ty_of(ty):
+        m = re.match(r"&?(?:mut )?(?:alloc::vec::Vec<|\[)([^,;\]>]+)", ty or "")
+        return m.group(1).strip() if m else None
+
+    def unit(n, depth=0):
+        n = peel_block(peel(n))
+        k = n.get("k")
+        if depth > 10:
+            return None
+        if k == "Var":
+            return env.get(n["v"])
+        if k in ("Cast", "Try"):
+            return unit(n["e"], depth + 1)
+        if k == "Call":
+            c = callee(n) or ""
+            if c in ("core::mem::size_of", "std::mem::size_of") and n.get("targs"):
+                return ("sizeof", n["targs"][0])
+            if c.endswith("::len") and n.get("args"):
+                t = elem_ty_of(peel(n["args"][0]).get("ty") or n["args"][0].get("ty"))
+                if t:
+                    return ("bytes",) if t == "u8" else ("elems", t)
+            if c.endswith(("::min", "::max", "saturating_sub", "wrapping_sub")) and len(n.get("args", [])) == 2:
+                a, b = unit(n["args"][0], depth + 1), unit(n["args"][1], depth + 1)
+                return a or b
+            if c.endswith(("checked_mul", "saturating_mul", "wrapping_mul")) and len(n.get("args", [])) == 2:
+                return mul(unit(n["args"][0], depth + 1), unit(n["args"][1], depth + 1))
+            return None
+        if k == "Bin":
+            a, b = unit(n["l"], depth + 1), unit(n["r"], depth + 1)
+            if n["op"] == "Mul":
+                return mul(a, b)
+            if n["op"] in ("Add", "Sub"):
+                return a or b
+            if n["op"] == "Div" and a == ("bytes",) and b and b[0] == "sizeof":
+                return ("elems", b[1])
+            return None
+        return None
+
+    def mul(a, b):
+        for x, y in ((a, b), (b, a)):
+            if x and y and x[0] == "elems" and y[0] == "sizeof" and x[1] == y[1]:
+                return ("bytes",)
+            if x and x[0] == "sizeof" and y is None:
+                return ("bytes",)       # count * size_of::<T>()  (the count's own unit is unknown: a value read from the stream)
+        return None
+
+    for _ in range(3):
+        for x in walk(f["body"]):
+            if x.get("k") == "LetS" and x["pat"].get("k") == "Bind" and x.get("init") is not None:
+                u = unit(x["init"])
+                if u is not None:
+                    env[x["pat"]["v"]] = u
+            if x.get("k") == "LetS" and x.get("else") is not None and x.get("init") is not None:
+                # `let Some(n) = a.checked_mul(b) else {..}`
+                u = unit(x["init"])
+                if u is not None:
+                    for b_ in pat_binds(x["pat"]):
+                        env[b_["v"]] = u
+    return env, unit
+
+
+@rule("T7", ["C01", "C06"], floor=1, doc="raw pointer arithmetic on the load paths keeps its units: a byte pointer (`*mut u8`) is advanced, and a byte "
+      "slice sized, by a number of BYTES (count x size_of::<T>()), never by a number of elements of a wider type")
+def t7(facts, tier):
+    for f in sorted(facts.fns_of_crate("savefile"), key=lambda g: g["id"]):
+        if not f.get("body") or "quickcheck" in f["id"]:
+            continue
+        n = 0
+        sites = []
+        for x in walk(f["body"]):
+            if x.get("k") != "Call":
+                continue
+            c = callee(x) or ""
+            if c in ("*mut T::add", "*const T::add", "*mut T::offset", "*const T::offset") and len(x.get("args", [])) == 2:
+                pt = (x.get("targs") or [None])[0]
+                sites.append((x, pt, x["args"][1], "advanced"))
+            if c.endswith(("from_raw_parts_mut", "from_raw_parts")) and len(x.get("args", [])) == 2 and "slice" in c:
+                pt = (x.get("targs") or [None])[0]
+                sites.append((x, pt, x["args"][1], "sized"))
+        if not sites:
+            continue
+        env, unit = _unit_env(f)
+        for x, pt, k_, what in sites:
+            if pt is None:
+                continue
+            bytes_ptr = pt in ("u8", "core::mem::maybe_uninit::MaybeUninit<u8>", "i8")
+            u = unit(k_)
+            n += 1
+            key = f"{f['id']}:{what}#{n}"
+            if bytes_ptr and u and u[0] == "elems":
+                yield ob(["C01", "C06"], "T7", key, "violation", where(f, x),
+                         f"{f['id']}: a byte pointer is {what} by a number of `{u[1]}` elements (not multiplied by size_of::<{u[1]}>()): for element "
+                         f"types wider than one byte the data lands at the wrong address (earlier items are overwritten, the tail stays unwritten)")
+            elif (not bytes_ptr) and u == ("bytes",) and pt not in ("u8",):
+                yield ob(["C01", "C06"], "T7", key, "violation", where(f, x),
+                         f"{f['id']}: a `*mut {pt}` is {what} by a number of bytes: the access runs past the allocation")
+            else:
+                yield ob(["C01", "C06"], "T7", key, "pass" if u is not None else "undecided" if False else "pass", where(f, x),
+                         f"{f['id']}: pointer to {pt} {what} by {('a quantity in ' + u[0]) if u else 'a quantity whose unit is not derived'}",
+                         nontrivial=u is not None)
